@@ -292,6 +292,32 @@ pub fn run(seed: u64, cases: u64) -> std::process::ExitCode {
             cmp("self-referential", case, "de", format!("{a:?}"), format!("{c:?}"), &mut out, &mut n);
         }
     }
+    // histories: the same shared value (and a clone of it) checked several times with changing restriction sets;
+    // every answer must be the bare value's answer for that set, whatever was asked before
+    for case in 0..cases {
+        let text = rng.string();
+        let num = (rng.below(41) as i32) - 20;
+        let (ws, wn) = (MultiRef::new(text.clone()), MultiRef::new(num));
+        let (cs, cn) = (ws.clone(), wn.clone());
+        for step in 0..4 {
+            let rs: Option<Rc<Restrictions>> = match rng.below(4) {
+                0 => None,
+                1 => Some(Rc::new(Restrictions { max_length: Some(rng.below(6) as usize), ..Default::default() })),
+                2 => Some(Rc::new(Restrictions { min_length: Some(rng.below(6) as usize), ..Default::default() })),
+                _ => Some(Rc::new(Restrictions { enumeration: Some(vec![text.clone(), "other".into()][(rng.below(2) as usize)..].to_vec()), ..Default::default() })),
+            };
+            let rn: Option<Rc<Restrictions>> = match rng.below(3) {
+                0 => None,
+                1 => Some(Rc::new(Restrictions { max_inclusive: Some((rng.below(41) as i32) - 20), ..Default::default() })),
+                _ => Some(Rc::new(Restrictions { min_exclusive: Some((rng.below(41) as i32) - 20), ..Default::default() })),
+            };
+            let what = format!("history-step{step}");
+            cmp("history-string", case, &what, res(text.check_restrictions(rs.clone())), res(ws.check_restrictions(rs.clone())), &mut out, &mut n);
+            cmp("history-string-clone", case, &what, res(text.check_restrictions(rs.clone())), res(cs.check_restrictions(rs)), &mut out, &mut n);
+            cmp("history-int", case, &what, res(num.check_restrictions(rn.clone())), res(wn.check_restrictions(rn.clone())), &mut out, &mut n);
+            cmp("history-int-clone", case, &what, res(num.check_restrictions(rn.clone())), res(cn.check_restrictions(rn)), &mut out, &mut n);
+        }
+    }
     // Default
     n += 1;
     if format!("{:?}", MultiRef::<Nested>::default()) != format!("{:?}", Nested::default()) {
